@@ -401,7 +401,9 @@ func c10SelfTest(t *testing.T, st *c10Stream) {
 // one browser driving the store
 
 type c10Step struct {
-	Op       string   `json:"op"` // save | clear
+	Op       string   `json:"op"` // save | resave (the loaded session is modified and saved by a request presenting the jar's cookies) | clear | load
+	Fault    string   `json:"injected_store_fault,omitempty"`
+	Ticket   string   `json:"ticket,omitempty"` // resave on a server-side store: reused | rotated | unknown
 	L        int      `json:"token_len,omitempty"`
 	Variant  int64    `json:"variant,omitempty"`
 	UID      string   `json:"uid,omitempty"`
@@ -421,6 +423,10 @@ type c10Browser struct {
 	steps []c10Step
 	saved []c10Snap // snapshots of every session saved so far (stale detection)
 	parts int       // parts of the session the jar currently holds (0 after clear / at start)
+	cur   *c10Snap  // the session of the last successful save (nil at start and after a clear)
+	// store-fault histories: a save that fails while a fault is injected is recorded, not reported
+	tolerateSaveErr bool
+	fault           string
 }
 
 func c10NewBrowser(run *vfRun, cfg *c10Cfg, p *vfProxy, st *c10Stream) *c10Browser {
@@ -456,7 +462,9 @@ func c10Tail(name string) string {
 
 func (b *c10Browser) detail(extra map[string]interface{}) map[string]interface{} {
 	d := map[string]interface{}{"config": b.cfg.Label, "flags": b.p.Flags, "host": b.cfg.Host, "host_header_seen_by_proxy": b.cfg.WireHost, "path": b.cfg.Path, "cookie_name": b.cfg.Name,
-		"history": b.steps, "how_to_replay": "token = incompressible text of token_len bytes in AccessToken (variant 0) — see c10Make; drive p.SaveSession / p.LoadCookiedSession / p.ClearSessionCookie with one cookie jar"}
+		"history": b.steps, "how_to_replay": "token = incompressible text of token_len bytes in AccessToken (variant 0) — see c10Make; drive p.SaveSession / p.LoadCookiedSession / p.ClearSessionCookie with one cookie jar; " +
+			"resave = LoadCookiedSession(request with the jar's cookies), overwrite every field of the loaded session, SaveSession(same request, loaded session) — what a token refresh does; " +
+			"injected_store_fault = the named Redis command of this step was failed once by the RESP front (err-before: -ERR reply, command not executed; drop-before: connection closed instead; effect-*: executed, reply lost / replaced by -ERR; corrupt / truncate: GET payload damaged)"}
 	for k, v := range extra {
 		d[k] = v
 	}
@@ -469,10 +477,16 @@ func (b *c10Browser) histString() string {
 		if i > 0 {
 			sb.WriteString(" -> ")
 		}
-		if s.Op == "clear" {
+		switch {
+		case s.Op == "clear":
 			sb.WriteString("clear")
-		} else {
-			fmt.Fprintf(&sb, "save(len=%d,v=%d => %d cookie(s))", s.L, s.Variant, s.Parts)
+		case s.Op == "load":
+			fmt.Fprintf(&sb, "load[%s => %s]", s.Fault, s.Load)
+		default:
+			fmt.Fprintf(&sb, "%s(len=%d,v=%d => %d cookie(s))", s.Op, s.L, s.Variant, s.Parts)
+			if s.Fault != "" {
+				fmt.Fprintf(&sb, "[%s => %s]", s.Fault, vfTrunc(s.Err, 40))
+			}
 		}
 	}
 	return sb.String()
@@ -518,16 +532,63 @@ func (b *c10Browser) apply(lines []string) (emitted []string, sets int) {
 	return
 }
 
-// Save saves the session for spec and judges the load that follows. It returns the number of cookies set.
-func (b *c10Browser) Save(sp c10Spec) (parts int, ok bool) {
+// Save saves a NEW session for spec (as a login does) and judges the load that follows. It returns the number of cookies set.
+func (b *c10Browser) Save(sp c10Spec) (parts int, ok bool) { return b.save(sp, false) }
+
+// Resave does what a token refresh does: the session that the jar's cookies load is modified (every serialised field is
+// replaced by the one of spec) and saved by a request that presents those cookies; the load that follows is judged like after
+// any other save. On a server-side store this re-uses the ticket, i.e. writes a key that exists already. Without a loadable
+// session (start of a history, after a clear) it is a plain Save.
+func (b *c10Browser) Resave(sp c10Spec) (parts int, ok bool) { return b.save(sp, true) }
+
+// c10TicketOf: the ticket part of a server-side store's session cookie ("" when it cannot be told): the cookie value is
+// <base64 payload>|<timestamp>|<signature>; for one ticket the payload is constant, the other two parts change per save.
+func (b *c10Browser) ticketOf() string {
+	for _, c := range b.jar.For(b.cfg.Host, b.cfg.Path, b.cfg.HTTPS) {
+		if c.Name == b.cfg.Name {
+			if k := strings.IndexByte(c.Value, '|'); k > 0 {
+				return c.Value[:k]
+			}
+		}
+	}
+	return ""
+}
+
+func (b *c10Browser) save(sp c10Spec, resave bool) (parts int, ok bool) {
 	s := c10Make(b.st, sp)
+	op, ticketBefore := "save", ""
+	if resave {
+		var loaded *c10sess.SessionState
+		lreq := b.request()
+		lerr, lpan := c10Guarded(func() error { var e error; loaded, e = b.p.P.LoadCookiedSession(lreq); return e })
+		if lpan == "" && lerr == nil && loaded != nil {
+			op, ticketBefore = "resave", b.ticketOf()
+			loaded.CreatedAt, loaded.ExpiresOn = s.CreatedAt, s.ExpiresOn
+			loaded.AccessToken, loaded.IDToken, loaded.RefreshToken = s.AccessToken, s.IDToken, s.RefreshToken
+			loaded.Nonce, loaded.Email, loaded.User, loaded.Groups, loaded.PreferredUsername = s.Nonce, s.Email, s.User, s.Groups, s.PreferredUsername
+			s = loaded // keeps whatever the store attached to the loaded session (its lock)
+			b.run.Count("resaves", 1)
+		} else {
+			b.run.Count("resaves_without_a_loadable_session_done_as_plain_saves", 1)
+		}
+	}
 	req := b.request()
 	rw := httptest.NewRecorder()
 	err, pan := c10Guarded(func() error { return b.p.P.SaveSession(rw, req, s) })
-	step := c10Step{Op: "save", L: sp.L, Variant: sp.Variant, UID: sp.UID}
+	step := c10Step{Op: op, L: sp.L, Variant: sp.Variant, UID: sp.UID, Fault: b.fault}
 	if pan != "" {
 		b.steps = append(b.steps, step)
 		b.run.Violation("c10:panic-in-save", fmt.Sprintf("[%s] SaveSession panicked in history %s", b.cfg.Label, b.histString()), b.detail(map[string]interface{}{"panic": pan}))
+		return 0, false
+	}
+	if err != nil && b.tolerateSaveErr {
+		// a save that fails under an injected store fault is not a save; the browser still applies whatever the response carried
+		step.Err = err.Error()
+		b.steps = append(b.steps, step)
+		cur := &b.steps[len(b.steps)-1]
+		cur.Emitted, cur.Parts = b.apply(rw.Header().Values("Set-Cookie"))
+		cur.JarAfter = b.jarNames()
+		b.run.Count("saves_failed_under_injected_fault", 1)
 		return 0, false
 	}
 	if err != nil {
@@ -545,6 +606,17 @@ func (b *c10Browser) Save(sp c10Spec) (parts int, ok bool) {
 	parts = cur.Parts
 	b.parts = parts
 	b.run.Count("saves", 1)
+	if op == "resave" && b.cfg.Store != "cookie" {
+		switch after := b.ticketOf(); {
+		case ticketBefore == "" || after == "":
+			cur.Ticket = "unknown"
+		case after == ticketBefore:
+			cur.Ticket = "reused"
+		default:
+			cur.Ticket = "rotated"
+		}
+		b.run.Count("resaves_ticket_"+cur.Ticket, 1)
+	}
 
 	// the next request
 	var got *c10sess.SessionState
@@ -583,7 +655,54 @@ func (b *c10Browser) Save(sp c10Spec) (parts int, ok bool) {
 		}
 	}
 	b.saved = append(b.saved, snap)
+	b.cur = &b.saved[len(b.saved)-1]
 	return parts, ok
+}
+
+// Load is a further request of the browser with no save or clear in between (fault = what was injected into the store read of
+// this request, "" for none). judge=false: the outcome is only recorded (a request whose store read failed need not be served).
+// judge=true: nothing was cleared since the last successful save, so exactly that session must load.
+func (b *c10Browser) Load(fault string, judge bool) bool {
+	var got *c10sess.SessionState
+	lreq := b.request()
+	err, pan := c10Guarded(func() error { var e error; got, e = b.p.P.LoadCookiedSession(lreq); return e })
+	step := c10Step{Op: "load", Fault: fault, Parts: b.parts}
+	switch {
+	case pan != "":
+		step.Load = "panic"
+	case err != nil || got == nil:
+		step.Load = "error: " + vfTrunc(fmt.Sprint(err), 80)
+	case b.cur != nil && len(c10Diff(*b.cur, got)) == 0:
+		step.Load = "equal"
+	default:
+		step.Load = "differs"
+	}
+	b.steps = append(b.steps, step)
+	b.run.Count("loads_without_a_preceding_save_or_clear", 1)
+	if pan != "" {
+		b.run.Violation("c10:panic-in-load", fmt.Sprintf("[%s] LoadCookiedSession panicked after %s", b.cfg.Label, b.histString()), b.detail(map[string]interface{}{"panic": pan}))
+		return false
+	}
+	if !judge || b.cur == nil {
+		return step.Load == "equal"
+	}
+	switch {
+	case err != nil || got == nil:
+		b.run.Violation("c10:saved-session-gone-without-a-clear", fmt.Sprintf("[%s] the saved session no longer loads (%v) although nothing cleared it: %s", b.cfg.Label, err, b.histString()), b.detail(nil))
+		return false
+	case step.Load != "equal":
+		d := c10Diff(*b.cur, got)
+		sig, what := "c10:loaded-session-differs", "differs from the saved one"
+		for k := len(b.saved) - 2; k >= 0; k-- {
+			if len(c10Diff(b.saved[k], got)) == 0 {
+				sig, what = "c10:stale-session-loads", fmt.Sprintf("is the session of an EARLIER save (%d of %d)", k+1, len(b.saved))
+				break
+			}
+		}
+		b.run.Violation(sig, fmt.Sprintf("[%s] the loaded session %s after %s: %s", b.cfg.Label, what, b.histString(), strings.Join(d, "; ")), b.detail(map[string]interface{}{"differences": d}))
+		return false
+	}
+	return true
 }
 
 // collides: the configured name has 256 characters and ends in _<k>, and one of several cookies set by a save carries
@@ -618,7 +737,7 @@ func (b *c10Browser) Clear() bool {
 	cur := &b.steps[len(b.steps)-1]
 	cur.Emitted, cur.Parts = b.apply(rw.Header().Values("Set-Cookie"))
 	cur.JarAfter = b.jarNames()
-	b.parts = 0
+	b.parts, b.cur = 0, nil
 	b.run.Count("clears", 1)
 	var got *c10sess.SessionState
 	lreq := b.request()
@@ -768,7 +887,9 @@ func TestVerif_C10(t *testing.T) {
 		"token lengths: tiny, EVERY length within ±24 of the first three split thresholds (found by bisection per configuration), 6–12 kB incompressible, and sessions of 9–22 cookies (thorough: up to ~101) going up and down across the 10/11-cookie boundary; " +
 		"single saves over all sizes, all ordered pairs of boundary sizes, exhaustive class sequences and seeded random sequences with clears (length <= 4 quick, <= 6 thorough); " +
 		"field contents from binary nonces, Unicode / invalid UTF-8 e-mail, nil/empty/300-entry/70 kB groups, nil/zero/past/future/far timestamps; cookie names of length 1..256 and regexp metacharacters; " +
-		"plus login -> refresh (growing / shrinking ID token) -> sign-out flows over HTTP. " +
+		"histories with RE-SAVES (the jar's session is loaded, every field replaced, and saved by the request presenting it — a refresh; on Redis the ticket's key is written again) mixed with new sessions and clears, on every Redis configuration (standalone, Cluster, Sentinel client) and the heavy cookie configurations; " +
+		"Redis histories with exactly ONE failing GET (then a further request must load the saved, never cleared session) or ONE failing SET (then the same save on the healthy store), 9 fault kinds x 3 client modes; " +
+		"plus login -> refresh (growing / shrinking ID token) -> sign-out flows over HTTP (the ageing re-save of the flow is itself judged). " +
 		"cell = (store, cookies before -> cookies after, operation, distance of the token length to the nearest threshold, name length class); non-trivial = every case (each is a save or clear followed by a judged load)")
 	run.Assume("lz4 does not compress random base64 text appreciably (thresholds are measured, not assumed)",
 		"nil/empty slices and nil/zero timestamps are one value", "sessions are created inside the cookie validity window (expiry is C09's subject)",
@@ -806,7 +927,9 @@ func TestVerif_C10(t *testing.T) {
 		c10Pairs(jobs, run, cfg, p, st, th, ci)
 		c10Sequences(jobs, run, cfg, p, st, th, ci)
 		c10ManyParts(jobs, run, cfg, p, st, th, ci)
+		c10Resaves(jobs, run, cfg, p, st, th, ci)
 	}
+	c10StoreFaults(jobs, run, w, st)
 	run.Extra("thresholds_token_length", thrSample)
 	c10Flows(jobs, run, w, st)
 	t1 := time.Now()
@@ -1054,6 +1177,198 @@ func c10Sequences(jobs *c10Jobs, run *vfRun, cfg *c10Cfg, p *vfProxy, st *c10Str
 }
 
 // ---------------------------------------------------------------------------------------------------------
+// histories with same-ticket re-saves (what a token refresh does)
+
+// c10Resaves: histories in which the browser's current session is loaded, modified (other token lengths, other field
+// contents) and saved again by the request that presented it, mixed with saves of new sessions and clears. On the Redis store a
+// re-save writes the key of the presented ticket a second, third, ... time (every Redis configuration: standalone, Cluster and
+// Sentinel client); the heavy cookie-store configurations run the same histories.
+func c10Resaves(jobs *c10Jobs, run *vfRun, cfg *c10Cfg, p *vfProxy, st *c10Stream, th c10Thr, ci int) {
+	if cfg.Store != "redis" && !cfg.Heavy {
+		return
+	}
+	rng := rand.New(rand.NewSource(run.Env.Seed*9176 + int64(ci)*41 + 3))
+	type op struct {
+		kind byte // s = new session, r = re-save, c = clear
+		L    int
+	}
+	var seqs [][]op
+	// every (first size, second size) over the size classes, then back to the first size
+	base := []int{0, 500, th.T[0], 12288}
+	for _, a := range base {
+		for _, c := range base {
+			seqs = append(seqs, []op{{'s', a}, {'r', c}, {'r', a + 1}})
+		}
+	}
+	pick := append(th.pickSizes(rng, 6), 100, 1000)
+	n := run.Env.Pick(16, 200)
+	if cfg.Store == "redis" && cfg.Heavy {
+		n = run.Env.Pick(40, 800)
+	}
+	for k := 0; k < n; k++ {
+		l := 3 + rng.Intn(run.Env.Pick(2, 4))
+		sq := []op{{'s', pick[rng.Intn(len(pick))]}}
+		for len(sq) < l {
+			L := pick[rng.Intn(len(pick))]
+			switch r := rng.Intn(10); {
+			case r < 6:
+				sq = append(sq, op{'r', L})
+			case r < 8:
+				sq = append(sq, op{'s', L})
+			default:
+				sq = append(sq, op{'c', 0})
+			}
+		}
+		seqs = append(seqs, sq)
+	}
+	jobs.each(len(seqs), func(i int) {
+		b := c10NewBrowser(run, cfg, p, st)
+		for j, o := range seqs[i] {
+			prev := b.parts
+			if o.kind == 'c' {
+				b.Clear()
+				run.Eval(c10Cell(cfg, th, prev, 0, 0, "clear"))
+				continue
+			}
+			var v int64
+			if (i+j)%3 == 2 {
+				v = run.Env.Seed*67867967 + int64(i)*211 + int64(j)
+			}
+			sp := c10Spec{L: o.L, Variant: v, UID: c10UID()}
+			if o.kind == 'r' {
+				parts, _ := b.Resave(sp)
+				run.Eval(c10Cell(cfg, th, prev, parts, o.L, b.steps[len(b.steps)-1].Op))
+			} else {
+				parts, _ := b.Save(sp)
+				run.Eval(c10Cell(cfg, th, prev, parts, o.L, "save"))
+			}
+		}
+		run.Count("resave_histories", 1)
+		if cfg.Store == "redis" && b.parts > 0 {
+			prev := b.parts
+			b.Clear()
+			run.Eval(c10Cell(cfg, th, prev, 0, 0, "clear"))
+		}
+		run.SampleEvery(2003, func() interface{} {
+			return map[string]interface{}{"config": cfg.Label, "history": b.histString(), "steps": b.steps}
+		})
+	})
+}
+
+// ---------------------------------------------------------------------------------------------------------
+// histories with ONE transient store failure
+
+type c10Arm struct {
+	mu   sync.Mutex
+	op   string
+	kind string
+	left int
+	hits int
+}
+
+func (a *c10Arm) set(op, kind string) { a.mu.Lock(); a.op, a.kind, a.left = op, kind, 1; a.mu.Unlock() }
+func (a *c10Arm) clear() (delivered bool) {
+	a.mu.Lock()
+	defer a.mu.Unlock()
+	delivered = a.op != "" && a.left == 0
+	a.op, a.left = "", 0
+	return
+}
+
+// c10StoreFaults: the Redis store behind the rig's RESP front (standalone, Cluster and Sentinel client), with exactly one
+// command of a history failing and a healthy store before and after:
+//   read fault:   save, [re-save,] a request whose GET fails (its outcome is recorded, not judged), a further request
+//                 -> nothing was cleared, so the further request must load exactly the saved session
+//   write fault:  [save,] a (re-)save whose SET fails (not a save when it reports the error; judged like any save when it
+//                 reports success), the same (re-)save again on the healthy store -> judged like any save
+// The histories of one client mode run one after the other (the fault is addressed to "the next GET / SET of this front").
+func c10StoreFaults(jobs *c10Jobs, run *vfRun, w *vfWorld, st *c10Stream) {
+	type scen struct{ op, kind, shape string }
+	var scens []scen
+	for _, k := range []string{"err-before", "drop-before", "effect-drop", "corrupt", "truncate"} {
+		scens = append(scens, scen{"GET", k, "save,load!,load"}, scen{"GET", k, "save,resave,load!,load"})
+	}
+	for _, k := range []string{"err-before", "drop-before", "effect-err", "effect-drop"} {
+		scens = append(scens, scen{"SET", k, "save,resave!,resave"}, scen{"SET", k, "save!,save"})
+	}
+	sizes := []int{0, 500, 2900, 12288}
+	modes := []string{"standalone", "cluster", "sentinel"}
+	for mi, mode := range modes {
+		mi, mode := mi, mode
+		hub := vfNewRedisHub(w.Redis())
+		w.OnClose(hub.Close)
+		front := hub.Front(1000 + mi)
+		arm := &c10Arm{}
+		hub.SetHooks(func(c *vfRedisCmd) vfRedisDecision {
+			arm.mu.Lock()
+			defer arm.mu.Unlock()
+			if arm.left > 0 && c.Op == arm.op {
+				arm.left--
+				arm.hits++
+				return vfRedisDecision{Fault: &vfRedisFault{Kind: arm.kind, N: 9}}
+			}
+			return vfRedisDecision{}
+		}, nil)
+		flags := append([]string{"--session-store-type=redis", "--cookie-name=_oauth2_proxy"}, front.ModeFlags(mode, "max_retries=-1")...)
+		p, err := w.NewProxy(flags...)
+		if err != nil {
+			run.T.Fatalf("[store-fault %s] %v", mode, err)
+		}
+		cfg := &c10Cfg{Label: "redis/one-store-fault/" + mode, Store: "redis", Name: "_oauth2_proxy", NameClass: c10NameClass("_oauth2_proxy"), Flags: flags, Host: "proxy.test", Path: "/x"}
+		rounds := run.Env.Pick(2, 12)
+		jobs.each(1, func(int) {
+			for r := 0; r < rounds; r++ {
+				for si, sc := range scens {
+					b := c10NewBrowser(run, cfg, p, st)
+					spec := func(k int) c10Spec {
+						sp := c10Spec{L: sizes[(r+si+k)%len(sizes)], UID: c10UID()}
+						if (r+si+k)%3 == 1 {
+							sp.Variant = run.Env.Seed*2750159 + int64(r*1000+si*10+k) + int64(mi)*100000
+						}
+						return sp
+					}
+					for k, stp := range strings.Split(sc.shape, ",") {
+						faulty := strings.HasSuffix(stp, "!")
+						if faulty {
+							arm.set(sc.op, sc.kind)
+							b.fault, b.tolerateSaveErr = sc.op+":"+sc.kind, true
+						}
+						switch strings.TrimSuffix(stp, "!") {
+						case "save":
+							b.Save(spec(k))
+						case "resave":
+							b.Resave(spec(k))
+						case "load":
+							if faulty {
+								b.Load(sc.op+":"+sc.kind, false)
+							} else {
+								b.Load("", true)
+							}
+						}
+						if faulty {
+							b.fault, b.tolerateSaveErr = "", false
+							if arm.clear() {
+								run.Count("store_faults_delivered_"+sc.op, 1)
+							} else {
+								run.Count("store_faults_not_reached", 1)
+							}
+						}
+					}
+					run.Eval(fmt.Sprintf("one-store-fault|%s|%s:%s|%s", mode, sc.op, sc.kind, sc.shape))
+					run.Count("store_fault_histories", 1)
+					if b.parts > 0 {
+						b.Clear()
+					}
+					run.SampleEvery(97, func() interface{} {
+						return map[string]interface{}{"config": cfg.Label, "history": b.histString(), "steps": b.steps}
+					})
+				}
+			}
+		})
+	}
+}
+
+// ---------------------------------------------------------------------------------------------------------
 // HTTP flows: login -> refreshes with a growing / shrinking ID token -> sign-out
 
 type c10Gen struct {
@@ -1254,6 +1569,20 @@ func c10OneFlow(run *vfRun, w *vfWorld, p, p2 *vfProxy, tab *c10FlowTable, label
 			return
 		}
 		b.Jar.Apply(b.Host, "/", rw.Header().Values("Set-Cookie"))
+		// this was a save like any other (of a loaded session, by the request that presented it): the next request loads it
+		areq := httptest.NewRequest("GET", "/", nil)
+		areq.Host = b.Host
+		areq.Header.Set("Cookie", vfCookieHeader(b.Jar.For(b.Host, "/", false)))
+		aged, aerr := p.P.LoadCookiedSession(areq)
+		run.Count("flow_loads_after_resave", 1)
+		if aerr != nil || aged == nil {
+			fail("c10:flow-session-lost", fmt.Sprintf("before refresh %d: the session does not load after it was loaded, modified and saved again: %v", g, aerr))
+			return
+		}
+		if d := c10Diff(c10Snapshot(s), aged); len(d) > 0 {
+			fail("c10:flow-stale-session", fmt.Sprintf("before refresh %d: the session was loaded, its CreatedAt changed, and saved by the request that presented it; the next request loads something else: %s", g, strings.Join(d, "; ")))
+			return
+		}
 		id := fmt.Sprintf("%s-refresh-%d", sub, g)
 		rr := b.Get(p, "/probe", "X-Vf-Id", id)
 		checkLines(rr, fmt.Sprintf("refresh %d", g))
